@@ -11,7 +11,11 @@ package strategy
 //@ import conditions "github.com/DataDog/extendeddaemonset/controllers/extendeddaemonsetreplicaset/conditions"
 //@
 //@ func getRollingUpdateStartTime
-//@   transparent
+//@   pure
+//@   reads *status, elems(status.Conditions)
+//@   let c = conditions.GetExtendedDaemonSetReplicaSetStatusCondition(status, v1.ConditionTypeActive)
+//@   ensures [C09] since-activation: status != nil && c != nil && c.Status == "True" ==> result == c.LastTransitionTime.Time
+//@   ensures [C09] otherwise-now: status == nil || c == nil || c.Status != "True" ==> result == now
 //@
 //@ func calculateMaxCreation
 //@   requires params != nil && params.SlowStartAdditiveIncrease != nil && params.SlowStartIntervalDuration != nil
@@ -30,6 +34,7 @@ package strategy
 //@   trusted
 //@   reads nothing
 //@ func manageUnscheduledPodNodes
+//@   requires forall i int :: 0 <= i && i < len(pods) ==> pods[i] != nil
 //@   modifies nothing
 //@   loop 1 invariant true
 //@ func cleanupPods
@@ -48,6 +53,7 @@ package strategy
 //@   requires params.Strategy.RollingUpdate.SlowStartIntervalDuration != nil && params.Strategy.RollingUpdate.MaxParallelPodCreation != nil
 //@   requires params.Strategy.RollingUpdate.SlowStartAdditiveIncrease != nil
 //@   requires forall n *NodeItem :: n in params.PodByNodeName ==> n != nil && n.Node != nil
+//@   requires forall i int :: 0 <= i && i < len(params.UnscheduledPods) ==> params.UnscheduledPods[i] != nil
 //@   modifies params.NewStatus.Conditions, elems(params.NewStatus.Conditions), mapof(params.PodByNodeName)
 //@   ensures result != nil && fresh(result)
 //@   ensures [C08] paused-flag: result.IsPaused <==> eds.IsRollingUpdatePaused(daemonset.ObjectMeta.Annotations)
